@@ -37,14 +37,18 @@ def main():
                                env=env, capture_output=True, text=True, cwd=VERIF)
             caught = p.returncode == 1 and "VIOLATION property=%s" % prop in p.stdout
             first = [ln for ln in p.stdout.splitlines() if ln.startswith("violation")][:1]
-            rows.append((sid, prop, "caught" if caught else "MISSED(exit %d)" % p.returncode, time.time() - t0,
-                         (first or [""])[0][:130]))
+            if meta.get("expect") == "not-judged":
+                # kept for the record: a change the property's wording does not decide (see its meta.json / DESIGN 10.2)
+                verdict = "not-judged" if p.returncode == 0 else "UNEXPECTED(exit %d)" % p.returncode
+            else:
+                verdict = "caught" if caught else "MISSED(exit %d)" % p.returncode
+            rows.append((sid, prop, verdict, time.time() - t0, (first or [""])[0][:130]))
         finally:
             subprocess.run(["git", "-C", "/repo", "worktree", "remove", "--force", wt], capture_output=True)
             shutil.rmtree(scratch, ignore_errors=True)
     for r in rows:
         print("%-36s %-4s %-16s %6.1fs  %s" % r)
-    return 0 if all(r[2] == "caught" for r in rows) else 1
+    return 0 if all(r[2] in ("caught", "not-judged") for r in rows) else 1
 
 
 if __name__ == "__main__":
